@@ -282,8 +282,21 @@ Definition feed_ts (c : cfg) (s : gstate) (boundary : bool) : gstate :=
 Definition rtp_pt (raw : bytes) : option N :=
   match parse_rtp_header true raw with Ok h => Some (rh_pt h) | _ => None end.
 
-(* the switch on sdpCtx.GetVideoPayloadTypeBase(): IsAvcBoundary / IsHevcBoundary (models of C13), true otherwise *)
+(* sdpCtx.IsVideoPayloadTypeOrigin: the packet belongs to the video track (payload type 96 in every SDP of the harness) *)
+Definition rtp_is_video (raw : bytes) : bool :=
+  match rtp_pt raw with Some pt => pt =? 96 | None => false end.
+
+(* the switch on sdpCtx.GetVideoPayloadTypeBase(): IsAvcBoundary / IsHevcBoundary (models of C13) of a packet of
+   the video track - an audio packet starts no GOP, whatever its payload looks like (lal fix of C06) -, true otherwise *)
 Definition rtp_is_boundary (v : vcodec) (raw : bytes) : bool :=
+  match v with
+  | VOther => true
+  | VAvc => rtp_is_video raw && match rtp_boundary true false raw with Ok b => b | _ => false end
+  | VHevc => rtp_is_video raw && match rtp_boundary true true raw with Ok b => b | _ => false end
+  end.
+
+(* the pinned test (before that fix): the payload type was not looked at *)
+Definition rtp_is_boundary_pinned (v : vcodec) (raw : bytes) : bool :=
   match v with
   | VOther => true
   | VAvc => match rtp_boundary true false raw with Ok b => b | _ => false end
